@@ -122,7 +122,10 @@ Entitled(call, bk, b, o, old, new, t) ==
       [] old.s = "a" -> MayFree(call, bk, o, addr, old)
       \* C21 cooldown: whatever happened in between (cooling, deallocated, block deleted and re-created), an
       \* address is not handed out before its last release + cooldown
-      [] new.s = "a" -> MayAlloc(call, b, addr, new) /\ Cooled(bk, o, t)
+      \* (an assignment BY ADDRESS, ipam.AssignIP, takes exactly the named address for its handle; the caller
+      \*  chose the address, so neither the pool filters nor the cooldown of auto-assignment are demanded of it)
+      [] new.s = "a" -> IF call.op = "assignip" THEN new.h = call.h /\ addr = call.ip
+                        ELSE MayAlloc(call, b, addr, new) /\ Cooled(bk, o, t)
       [] OTHER -> TRUE
 
 \* C21 longest-free first: an auto-assign must not take an address while leaving free (and usable) one
@@ -142,7 +145,7 @@ MayUnaffine(call, oldb) ==
 AffChangeOK(call, oldb, newaff, created, bk) ==
     CASE oldb.aff = newaff -> TRUE
       [] oldb.aff = "" -> /\ created                                            \* only a create gives a block an owner
-                          /\ call.op \in {"assign", "claim"} /\ newaff = HostAff(call.host)
+                          /\ call.op \in {"assign", "assignip", "claim"} /\ newaff = HostAff(call.host)
                           \* (that the owner's claim exists at this instant is part of BlockAffHasAff: soft channel)
       [] newaff = "" -> MayUnaffine(call, oldb)
       [] OTHER -> FALSE
@@ -163,7 +166,7 @@ BlockWriteOK(e, call) ==
 
 AffWriteOK(e, call) ==
     /\ e.op \in {"update", "delete"} => ReadAt(e.c, e.key, e.rev)
-    /\ e.op = "create" => /\ call.op \in {"assign", "claim"} /\ e.val.owner = HostAff(call.host)
+    /\ e.op = "create" => /\ call.op \in {"assign", "assignip", "claim"} /\ e.val.owner = HostAff(call.host)
                           /\ e.val.state = "pending"                            \* C22: two-phase claim
     /\ (e.op = "update" /\ e.val.state = "confirmed") =>                        \* C22: confirm only what the block says
           /\ e.val.bk \in BlockKeys /\ st[e.val.bk].val.aff = e.val.owner
